@@ -49,6 +49,21 @@ def nested_templates():
             for glob in (True, False):
                 src = ("stel naam = 100; " if glob else "") + (otpl % itxt) + " " + call
                 out.append(src)
+    # a name declared inside a block (of any kind, with one statement or several) does not exist after it
+    blocks = {"als": "als ja { %s }", "anders": "als nee { 1 } anders { %s }", "zolang": "stel k = 0; zolang k < 1 { k += 1; %s }", "zolang1": "zolang nee { %s }",
+              "bloot": "{ %s }", "functie": "functie omhulsel() { %s } omhulsel()", "als-waarde": "stel v = als ja { %s }"}
+    decls = {"stel": "stel hulp = 7", "functie": "functie hulp() { 7 }", "functie-in-aanroep": "type(functie hulp() { 7 })"}
+    for bk, btpl in blocks.items():
+        for dk, dtxt in decls.items():
+            if dk == "functie-in-aanroep":
+                continue          # a named function literal in expression position: excluded (4.3 item 13)
+            for extra in ("", "1; "):
+                out.append("print(\"start\"); %s; hulp" % (btpl % (extra + dtxt)))
+                out.append("stel hulp = \"buiten\"; %s; type(hulp)" % (btpl % (extra + dtxt)))
+    # a function written between two declarations of a name means the first one, whatever happens later
+    out += ["stel t = 1; functie lees() { t } stel t = 100; [lees(), t]", "stel t = \"oud\"; functie lees() { t } stel t = \"nieuw\"; functie lees2() { t } [lees(), lees2()]",
+            "functie f() { \"eerste\" } functie g() { f() } functie f() { \"tweede\" } [g(), f()]", "stel n = 1; functie op() { n = n + 1; n } stel n = 50; [op(), op(), n]",
+            "{ stel u = 1; functie lu() { 0 } stel u = 2; u }"]
     # unreachable code is still compiled: an undeclared name after antwoord is rejected before anything runs
     for dead in ("nergens", "nergens = 1", "print(nergens)", "stel z = nergens", "als nergens { 1 }", "functie q() { nergens }"):
         out.append("print(\"start\"); functie f(a) { antwoord a; %s } f(1)" % dead)
